@@ -1,6 +1,7 @@
 """C19 - regrouping = eps-connected partition of the catalogue, independent of row order."""
 import itertools
 import math
+import os
 import time
 
 import numpy as np
@@ -659,13 +660,100 @@ def run(ctx, model_ok=True):
     rs = run_resize(ctx)
     run_cli(ctx)
     run_cli_boundary(ctx)
+    run_priorized_eps(ctx)
     run_certified(ctx, model_ok, emb, nd, rs)
+
+
+# ------------------------------------------------------------------------------------------ linking length of priorized fitting
+def priorized_eps_problem(ctx, e, tag='peps'):
+    """priorized_fit_islands(doregroup=True, regroup_eps=e): e is a linking length in ARCMIN (None = 4 x the mean major axis).
+    The value handed to regroup_dbscan must be the chord 2 sin(e/2) of that angle, and the groups formed must be the classes of
+    `separation <= e`.  Catalogue: pairs 0.6 e and 1.5 e apart plus one far source, on a small noise-free image."""
+    import math
+    from AegeanTools import source_finder as sfm
+    from AegeanTools.models import ComponentSource
+    from fixtures import make_header, write_image
+    import numpy as np
+    shape = (96, 96)
+    cd = 20.0 / 3600
+    h = make_header(shape, proj='SIN', crval=(150.0, 0.0), cdelt=cd, beam=(60.0 / 3600, 60.0 / 3600, 0.0))
+    path = os.path.join(ctx.work, f'{tag}.fits')
+    write_image(path, np.zeros(shape, dtype=np.float32), h)
+    a_arcsec = 70.0
+    eff = e if e is not None else 4 * a_arcsec / 60          # arcmin
+    step = eff / 60.0                                           # degrees
+    pos = [(150.0, 0.0), (150.0, 0.6 * step), (150.0 + 3 * step, 0.0), (150.0 + 3 * step, 1.5 * step), (150.0 - 4 * step, -3 * step)]
+    cat = []
+    for k, (ra, dec) in enumerate(pos):
+        c = ComponentSource()
+        c.island, c.source, c.ra, c.dec, c.peak_flux, c.a, c.b, c.pa = k, 0, ra, dec, 1.0 + k, a_arcsec, a_arcsec, 0.0
+        c.psf_a, c.psf_b, c.psf_pa = 60.0, 60.0, 0.0
+        c.uuid = f'u{k}'
+        cat.append(c)
+    seen = {}
+    from AegeanTools import cluster as _cl
+    real = _cl.regroup_dbscan
+
+    def wrap(srccat, eps=4):
+        seen['eps'] = float(eps)
+        seen['mean_a'] = float(np.mean([s.a / 60 for s in srccat]))      # arcmin, after cluster.resize
+        groups = real(srccat, eps=eps)
+        seen['groups'] = sorted(sorted(s.uuid for s in g) for g in groups)
+        return groups
+    _cl.regroup_dbscan = wrap
+    try:
+        sfm.SourceFinder(log=quiet_log()).priorized_fit_islands(path, catalogue=cat, stage=1, rms=1.0, bkg=0.0, cores=1,
+                                                                  doregroup=True, regroup_eps=e)
+    except Exception as ex:  # noqa
+        if 'eps' not in seen:
+            return f'priorized_fit_islands(regroup_eps={e!r}) raised {type(ex).__name__}: {ex}'
+    finally:
+        _cl.regroup_dbscan = real
+    if 'eps' not in seen:
+        return f'priorized_fit_islands(regroup_eps={e!r}, doregroup=True) did not call regroup_dbscan'
+    if e is None:
+        eff = 4 * seen['mean_a']      # the documented default: 4 x the mean major axis of the (rescaled) catalogue sources
+    want = 2 * math.sin(math.radians(eff / 60) / 2)
+    if abs(seen['eps'] - want) > 1e-12 * want:
+        return (f'priorized_fit_islands(regroup_eps={e!r}): regroup_dbscan received eps = {seen["eps"]!r}, the chord of a linking '
+                f'length of {eff!r} arcmin is {want!r}')
+    exp = [['u0', 'u1'], ['u2'], ['u3'], ['u4']]
+    if seen['groups'] != exp:
+        return f'priorized_fit_islands(regroup_eps={e!r}): groups {seen["groups"]}, the classes of `separation <= {eff!r} arcmin` are {exp}'
+    return None
+
+
+def quiet_log():
+    import logging
+    lg = logging.getLogger('c19quiet')
+    lg.setLevel(logging.CRITICAL)
+    return lg
+
+
+PRIOR_EPS = [None, 2.0, 0.5, 10.0, 45.0]
+
+
+def run_priorized_eps(ctx):
+    bad = []
+    for e in PRIOR_EPS:
+        ctx.case(key=f'prior-eps:{e}', bucket='priorized linking length ' + ('default' if e is None else 'given'))
+        msg = priorized_eps_problem(ctx, e)
+        if msg:
+            bad.append(msg)
+            ctx.mismatch('linking length of priorized fitting', {'regroup_eps': e}, impl=msg,
+                         is_violation={'kind': 'prior-eps', 'regroup_eps': e, 'what': msg})
+    ctx.oblige(f'priorized_fit_islands: regroup_eps None / {PRIOR_EPS[1:]} arcmin reaches regroup_dbscan as the chord of that angle and '
+               'forms the classes of `separation <= eps`', not bad, bad[:2])
 
 
 # ------------------------------------------------------------------------------------------ search / replay
 def search(ctx):
     rng = ctx.rng
     t0 = time.time()
+    for e in PRIOR_EPS:
+        msg = priorized_eps_problem(ctx, e, 'speps')
+        if msg:
+            return {'kind': 'prior-eps', 'regroup_eps': e, 'what': msg}
     if not any(f.get('case', {}).get('kind') == 'cli-boundary' for f in getattr(ctx, 'failures', []) if isinstance(f.get('case'), dict)):
         v = run_cli_boundary(ctx)
         if v:
@@ -724,6 +812,10 @@ def replay(ctx, obj):
         return 1
     kind = fi.get('kind')
     msg = None
+    if kind == 'prior-eps':
+        msg = priorized_eps_problem(ctx, fi['regroup_eps'], 'replay')
+        print('implementation:', msg or 'property holds for this linking length')
+        return 1 if msg else 0
     if kind == 'dbscan':
         cat = {'pts': [tuple(p) for p in fi['pts']], 'flux': fi['flux']}
         try:
